@@ -8,6 +8,8 @@ step of the transition system followed by resuming woken consumers until nobody 
   `new q|async|mux <cap>` | `new mq <ctrlCap> <reqCap>` | `new syncq` | `new priq <cap>` → `ok`
   list queues: `pop` `popany` (a NEW blocking consumer) → `ret:<r>` | `parked`
                `add x` `prior x` `addc x` `priorc x` `close` `tryclose` `tryclear` `trypop` → `<result>`
+               `atomic <ev> ; <ev> …` (ev ∈ add/prior/addc/priorc/close/tryclose): the events back to back, no woken
+               consumer resuming in between → `<r1>;<r2>…`
   priq:        `push x p` `pop` `len` → `<result>`;  `recv` → `got` | `empty`;  `waitlen` → `0` | `1`;
                `consume` (a NEW consumer: receive from WaitCh, then Pop) → `ret:<r>` | `parked`
 every answer is followed by ` ret=[<sorted results of the OTHER consumers that returned during the event>] parked=<n>`.
@@ -50,8 +52,43 @@ def lqEvent (P : Par) (s : CS) (next : Nat) (a : Act) (res : String) : St × Str
     let newDone := s2.done.take (s2.done.length - s.done.length)
     (.lq P s2 next, res ++ suffix (newDone.map (fun d => showOut d.2)) s2.parked.length)
 
-def lqLine (P : Par) (s : CS) (next : Nat) (ws : List String) : St × String :=
+/-- a producer-side event: its LTS action (Signal's choice = first parked thread) and its result text -/
+def producer (P : Par) (s : CS) (ws : List String) : Option (Act × String) :=
   let w := firstParked s
+  match ws with
+  | ["add", x] => (parseNat? x).map fun x =>
+      (.add x w, if P.kind == .syncq then "ok" else showOut (addReq P.sh s.q x).2)
+  | ["prior", x] => (parseNat? x).map fun x => (.prior x w, showOut (addPrior P.sh s.q x).2)
+  | ["addc", x] => (parseNat? x).map fun x => (.addCtrl x w, showOut (addCtrl P.sh s.q x).2)
+  | ["priorc", x] => (parseNat? x).map fun x => (.priorCtrl x w, showOut (addPriorCtrl P.sh s.q x).2)
+  | ["close"] => some (.close w, "ok")
+  | ["tryclose"] => some (.tryClose w, showOut (tryClose s.q).2)
+  | ["tryclear"] => some (.tryClear, showOut (tryClear s.q).2)
+  | ["trypop"] => some (.tryPop, showOut (syncTryPop P.ssh s.q).2)
+  | _ => none
+
+def splitSemi : List String → List String → List (List String)
+  | [], cur => [cur.reverse]
+  | w :: r, cur => if w == ";" then cur.reverse :: splitSemi r [] else splitSemi r (w :: cur)
+
+def burstEv (ws : List String) : Bool :=
+  match ws with
+  | op :: _ => op == "add" || op == "prior" || op == "addc" || op == "priorc" || op == "close" || op == "tryclose"
+  | [] => false
+
+/-- a burst of producer events without any resume in between; `none` if one of them is ill-formed or not enabled -/
+def atomicRun (P : Par) : List (List String) → CS → List String → Option (CS × List String)
+  | [], s, acc => some (s, acc.reverse)
+  | ev :: r, s, acc =>
+    if burstEv ev then
+      match producer P s ev with
+      | none => none
+      | some (a, res) => match Nv.C13.step P s a with
+        | none => none
+        | some s' => atomicRun P r s' (res :: acc)
+    else none
+
+def lqLine (P : Par) (s : CS) (next : Nat) (ws : List String) : St × String :=
   match ws with
   | ["pop"] | ["popany"] =>
     let anyway := ws == ["popany"]
@@ -62,25 +99,18 @@ def lqLine (P : Par) (s : CS) (next : Nat) (ws : List String) : St × String :=
         | (t, o) :: _ => if t == next then "ret:" ++ showOut o else "parked"
         | [] => "parked"
       (.lq P s1 (next + 1), r ++ suffix [] s1.parked.length)
-  | ["add", x] => match parseNat? x with
-    | some x =>
-      let res := if P.kind == .syncq then "ok" else showOut (addReq P.sh s.q x).2
-      lqEvent P s next (.add x w) res
+  | "atomic" :: rest =>
+    -- producer events executed back to back: no woken consumer resumes in between (the runner holds them back)
+    match atomicRun P (splitSemi rest []) s [] with
     | none => (.lq P s next, "bad-op")
-  | ["prior", x] => match parseNat? x with
-    | some x => lqEvent P s next (.prior x w) (showOut (addPrior P.sh s.q x).2)
+    | some (s1, rs) =>
+      let s2 := settle P s1.woken.length s1
+      let newDone := s2.done.take (s2.done.length - s.done.length)
+      (.lq P s2 next, ";".intercalate rs ++ suffix (newDone.map (fun d => showOut d.2)) s2.parked.length)
+  | _ =>
+    match producer P s ws with
+    | some (a, res) => lqEvent P s next a res
     | none => (.lq P s next, "bad-op")
-  | ["addc", x] => match parseNat? x with
-    | some x => lqEvent P s next (.addCtrl x w) (showOut (addCtrl P.sh s.q x).2)
-    | none => (.lq P s next, "bad-op")
-  | ["priorc", x] => match parseNat? x with
-    | some x => lqEvent P s next (.priorCtrl x w) (showOut (addPriorCtrl P.sh s.q x).2)
-    | none => (.lq P s next, "bad-op")
-  | ["close"] => lqEvent P s next (.close w) "ok"
-  | ["tryclose"] => lqEvent P s next (.tryClose w) (showOut (tryClose s.q).2)
-  | ["tryclear"] => lqEvent P s next .tryClear (showOut (tryClear s.q).2)
-  | ["trypop"] => lqEvent P s next .tryPop (showOut (syncTryPop P.ssh s.q).2)
-  | _ => (.lq P s next, "bad-op")
 
 /-! priq -/
 
